@@ -62,7 +62,45 @@ theorem rr_router_step (w : W) (j : Job) (hr : w.cfg.router = .rr) (hn : w.poolS
     (w.chooseTargetWorker j none).1 =
       (if hasW w.pool (rrNext w.last w.poolSize) then some (rrNext w.last w.poolSize) else none) := by
   unfold W.chooseTargetWorker
-  simp [hr, hn, hintAvailable]
+  simp [hr, hn, hintAvailable, hintLast]
+
+/-- the round-robin router as one expression -/
+theorem rr_choose_eq (w : W) (j : Job) (hint : Option Nat) (hr : w.cfg.router = .rr) :
+    w.chooseTargetWorker j hint =
+      if w.poolSize == 0 then (none, w)
+      else if hintAvailable w.pool hint || hintLast w.pool w.last hint then (hint, w)
+      else (if hasW w.pool (rrNext w.last w.poolSize) then some (rrNext w.last w.poolSize) else none,
+            { w with last := rrNext w.last w.poolSize }) := by
+  unfold W.chooseTargetWorker
+  simp only [hr]
+
+/-- (round-robin, backlog path — finding F9, fixed) `try_route_next_active_job` asks the router for a target and
+then routes the job with that target as the hint, so the router is consulted twice for one job. The second
+consultation returns the slot picked by the first and does NOT advance the rotation again — whatever hint the
+first consultation had and whether or not the picked worker is busy: one advance per routed job. (Before the fix a
+busy pick was rejected as a hint and the pointer advanced twice: with 2 workers every backlog job after the first
+two landed on the same worker, witness `corpus/C14/e-lts-f9_round_robin_backlog_uneven.ops`.) -/
+theorem rr_backlog_single_advance (w : W) (j j' : Job) (hint : Option Nat) (k : Nat) (hr : w.cfg.router = .rr)
+    (h1 : (w.chooseTargetWorker j hint).1 = some k) :
+    (w.chooseTargetWorker j hint).2.chooseTargetWorker j' (some k) = (some k, (w.chooseTargetWorker j hint).2) := by
+  rw [rr_choose_eq w j hint hr] at h1 ⊢
+  by_cases hz : (w.poolSize == 0) = true
+  · simp [hz] at h1
+  · simp only [hz, Bool.false_eq_true, if_false] at h1 ⊢
+    by_cases hh : (hintAvailable w.pool hint || hintLast w.pool w.last hint) = true
+    · simp only [hh, if_true] at h1 ⊢
+      subst h1
+      rw [rr_choose_eq w j' _ hr]
+      simp only [hz, Bool.false_eq_true, if_false, hh, if_true]
+    · simp only [hh, Bool.false_eq_true, if_false] at h1 ⊢
+      by_cases hw : hasW w.pool (rrNext w.last w.poolSize) = true
+      · simp only [hw, if_true, Option.some.injEq] at h1
+        subst h1
+        rw [rr_choose_eq _ j' _ (by exact hr)]
+        have : hintLast w.pool (rrNext w.last w.poolSize) (some (rrNext w.last w.poolSize)) = true := by
+          simp only [hintLast, hw, beq_self_eq_true, Bool.and_self]
+        simp only [hz, Bool.false_eq_true, if_false, this, Bool.or_true, if_true, hw]
+      · simp [hw] at h1
 
 /-! ## Affinity (key-persistent routing) -/
 
@@ -314,6 +352,8 @@ end C14
 #print axioms C14.rr_spread
 #print axioms C14.rr_in_range
 #print axioms C14.rr_router_step
+#print axioms C14.rr_choose_eq
+#print axioms C14.rr_backlog_single_advance
 #print axioms C14.affinity_partial
 #print axioms C14.affinity_unique_slot
 #print axioms C14.kp_routes_to_holder
